@@ -523,3 +523,8 @@ func (e *End) InWrite() bool {
 	defer e.S.mu.Unlock()
 	return e.wEntry != nil
 }
+
+// InReadLocked / InWriteLocked are InRead / InWrite for ready predicates,
+// which run with the simulator lock held.
+func (e *End) InReadLocked() bool  { return e.rEntry != nil }
+func (e *End) InWriteLocked() bool { return e.wEntry != nil }
